@@ -53,17 +53,17 @@ CLAIMS = {
     'C12': dict(category='other', design_ref='DESIGN.md section 3 C12, 2.13',
         text='Proved: Filter._check_property == documented semantics of all 8 operators; apply_common_filters yields exactly the objects matching every filter; _update_allow and '
              'AuthSet; SOUNDNESS of _find_search_optimizations for an arbitrary ghost object (loop invariant, image sets); re-iterable query at every call site; monotonicity and '
-             'conjunction=intersection lemmas. Bounded: filter sets x stores x 4 delivery routes against an independent reference. _check_filter recursion and directory matching are bounded only.',
+             'conjunction=intersection lemmas. Bounded: filter sets x stores x 4 delivery routes against an independent reference. _check_filter recursion and directory matching are bounded only. Also proved (section 18.7): FilterSet.add and the filter forwarding of CompositeDataSource.all_versions / query / get (call-site obligations: every member receives every attached and handed-down filter and nothing else).',
         note='Filter values on type/id are strings or iterables of strings; get() under attached filters is read permissively (newest-if-matching or newest-matching).',
         technique='contract-based deductive verification (PyVC + z3: arrays as sets, quantified prefix invariants, ghost object); bounded end-to-end stand-in'),
     'C11': dict(category='other', design_ref='DESIGN.md section 3 C11',
         text='Proved: _ObjectFamily.add preserves "latest_version carries the greatest modified time; all_versions gains exactly the added version" over the whole key set; memory._add '
-             'routing. Bounded: add histories (length <= 3/4) x 6 input forms on MemoryStore and FileSystemStore vs a list model, save/load round trip, file-name injectivity.',
+             'routing. Bounded: add histories (length <= 3/4) x 6 input forms on MemoryStore and FileSystemStore vs a list model, save/load round trip, file-name injectivity. Also (section 18): _timestamp2filename call-site obligations and unique-decomposition lemmas: distinct serialized instants get distinct file names.',
         note='OS semantics assumed; no concurrency. Known finding (dictionary-kept custom objects compare timestamps as text) is listed in known_findings.json.',
         technique='contract-based deductive verification of the representation invariant (PyVC + z3); bounded history enumeration against a list model'),
     'C18': dict(category='other', design_ref='DESIGN.md section 3 C18',
         text='Proved: newest-version selection loop of CompositeDataSource.get (prefix invariant, None iff no answers), order independence (max symmetric/associative), utils.deduplicate '
-             '(one entry per distinct version key). Bounded: partitions over 1-3 members in every order, composite-attached filters, relationship graphs x options through store/source/composite/Environment.',
+             '(one entry per distinct version key). Bounded: partitions over 1-3 members in every order, composite-attached filters, relationship graphs x options through store/source/composite/Environment. Since DESIGN section 18 also proved: CompositeDataSource.all_versions / query (every member asked, with exactly the composite\'s and the handed-down filters; answer == union of the members\' answers) and the forwarding slice of get; DataSource.relationships (exactly the scan, given the contract of query) and DataSource.related_to (on top of both); FilterSet.add (view after == view before united with the filters handed in).',
         note='The member loop of get() is abstracted (answers arbitrary); relationships()/related_to() filter-list construction is covered by the bounded part only.',
         technique='contract-based deductive verification of the selection and de-duplication loops (PyVC + z3); bounded federation/navigation enumeration'),
 
@@ -93,12 +93,12 @@ CLAIMS = {
         technique='loop-invariant proofs of the customisation protocol (PyVC + z3); bounded injection enumeration'),
     'C06': dict(category='other', design_ref='DESIGN.md section 3 C06',
         text='Proved: _choose_one_hash priority order; the 2.1 observable constructor replaces the id iff none was given and one was generated; id code reads no mutable state. Exhaustive: '
-             'id-contributing lists == frozen model, namespace constant. Bounded: ids of every SCO type x variants x boundary values equal an independent recomputation (own RFC 8785 + SHA-1), determinism across orders / round trips / processes. parse_into_datetime contracts (one instant, one id whatever value kind carried it); hash dictionaries in every order and nested in contributing values (bounded).',
+             'id-contributing lists == frozen model, namespace constant. Bounded: ids of every SCO type x variants x boundary values equal an independent recomputation (own RFC 8785 + SHA-1), determinism across orders / round trips / processes. parse_into_datetime contracts (one instant, one id whatever value kind carried it); hash dictionaries in every order and nested in contributing values (bounded). The canonical JSON the id is derived from is covered by the contracts of property C16 (convert2Es6Format per shape, per-character string obligations, encoder call-site obligations), and format_datetime / HashesProperty.clean are proved here too (section 18.2).',
         note='_generate_id loop and _make_json_serializable are covered by the bounded recomputation only; SHA-1 collision freedom assumed.',
         technique='contract proofs of the selection logic (PyVC + z3); bounded comparison with an independent canonicalizer + UUIDv5'),
     'C07': dict(category='exploration', design_ref='DESIGN.md section 3 C07',
         text='Bounded stand-in carries the granular laws: states reachable by <= 2 adds on 3 base objects x 10 selectors (incl. string-prefix siblings) x 3 markings x flag combinations against a set model; '
-             'object-level operations are proved as set algebra (add = union, remove = difference with MarkingNotFoundError iff absent, is_marked, clear). The selector functions (_evaluate_expression, _validate_selector, validate) are under contract here as well, with a native family over every path and near miss of three objects.',
+             'object-level operations are proved as set algebra (add = union, remove = difference with MarkingNotFoundError iff absent, is_marked, clear). The selector functions (_evaluate_expression, _validate_selector, validate) are under contract here as well, with a native family over every path and near miss of three objects. The contracts of new_version / _fudge_modified (C05) are obligations of this property as well (section 18.2).',
         note='Granular functions (nested loops over nested data) are outside the verified subset.',
         technique='bounded enumeration against a set model; set-algebra contracts for object-level markings (PyVC + z3 arrays)'),
     'C08': dict(category='other', design_ref='DESIGN.md section 3 C08',
@@ -114,7 +114,7 @@ CLAIMS = {
         note='Soundness beyond the bounded universe is not claimed; ANTLR parser assumed; special-value canonicalisations not exercised. Known finding: a comparison AND whose operands share no object type is refused by the pattern object model (ValueError).',
         technique='bounded enumeration with an independent semantics evaluator; comparator contracts and relational lemmas over path summaries (PyVC + z3)'),
     'C10': dict(category='exploration', design_ref='DESIGN.md section 3 C10',
-        text='Bounded stand-in only: generated pattern trees printed with an independent precedence-aware printer; text -> object model -> text -> independent reader gives the same tree; print o parse fixed point; the same trees built through the public model classes read back identically; both grammars.',
+        text='Bounded stand-in only: generated pattern trees printed with an independent precedence-aware printer; text -> object model -> text -> independent reader gives the same tree; print o parse fixed point; the same trees built through the public model classes read back identically; both grammars. Proved component (section 18): escape_quotes_and_backslashes against the string-literal grammar, exhaustively per character, lifted to strings through the replace-chain homomorphism.',
         note='No clause proved (ANTLR visitor and %-formatting over opaque objects are outside the verified subset). Known finding: [a:x = 1 AND b:x = 1] is valid text that create_pattern_object refuses.',
         technique='bounded grammar-driven round-trip enumeration with an independent reader'),
     'C13': dict(category='exploration', design_ref='DESIGN.md section 3 C13',
